@@ -12,6 +12,7 @@ Decided (bookkeeping that must not depend on wire direction / order / ownership)
 Not decided: numeric equality under reversal / reordering / splitting.
 """
 import ast
+import re
 from ..model import AnalysisError, walk_no_nested, norm, dotted
 from ._half import half_obligations
 from .C09 import check_junction_accumulate
@@ -42,39 +43,78 @@ def run(ctx, ck):
                                              'mininec.Skin_Effect_Load.impedance|<obj>.zint'})
     ck.floor('per-object caches', n, 2)
 
-    # D4
+    # D4 - on the symbolic walk of _add_conn (temporaries, conditional expressions and table lookups
+    # resolved): both directions are registered, the sign is -1 exactly when the two joined ends
+    # have the same end number
+    from ..symx import SymExec, simplify, copy_replace
     f = m.func('mininec.Geobj._add_conn')
-    adds = [c for c in walk_no_nested(f.node) if isinstance(c, ast.Call) and
-            isinstance(c.func, ast.Attribute) and c.func.attr == 'add']
-    recv = sorted(norm(c.func.value) for c in adds)
-    ok = len(adds) == 2 and any(r.startswith('self.conn[') for r in recv) and \
-        any(r.startswith('other.conn[') for r in recv)
+    apaths = [p_ for p_ in SymExec(ctx, f, bind_loops=True, effects=True).run() if p_.end != 'raise']
+    if not apaths:
+        raise AnalysisError('%s: no path returns' % f.qual)
+    n1 = f.params[-1] if f.params else 'n1'
+    both = []
+    signs = {}
+    for p_ in apaths:
+        adds = [ev[1] for ev in p_.events if ev[0] == 'call' and isinstance(ev[1].func, ast.Attribute)
+                and ev[1].func.attr == 'add']
+        recv = sorted(norm(c.func.value) for c in adds)
+        own = [c for c in adds if norm(c.func.value) == 'self.conn[%s]' % n1]
+        oth = [c for c in adds if re.match(r'^(.+)\[1\]\.conn\[\1\[0\]\]$', norm(c.func.value))]
+        both.append((len(adds) == 2 and len(own) == 1 and len(oth) == 1, recv))
+        if not (own and oth):
+            continue
+        look = re.match(r'^(.+)\[1\]\.conn', norm(oth[0].func.value)).group(1)
+        n2 = '%s[0]' % look
+        # arguments: (connected object, owner, end of the owner, sign of the entry, sign for idx())
+        a_own = [norm(a) for a in own[0].args]
+        a_oth = [norm(a) for a in oth[0].args]
+        shape_ok = len(a_own) == 5 and len(a_oth) == 5 and a_own[:3] == ['%s[1]' % look, 'self', n1] and \
+            a_oth[:3] == ['self', 'self', n1] and a_own[3] == '1'
+        for which, e in (('entry sign at the other object', oth[0].args[3] if len(a_oth) == 5 else None),
+                         ('index sign at the other object', oth[0].args[4] if len(a_oth) == 5 else None),
+                         ('index sign at this object', own[0].args[4] if len(a_own) == 5 else None)):
+            if e is None:
+                continue
+            for same in (True, False):
+                known = [b_ for t_, b_ in p_.conds if isinstance(b_, bool) and t_ in
+                         ('%s == %s' % (n2, n1), '%s == %s' % (n1, n2))]
+                known += [not b_ for t_, b_ in p_.conds if isinstance(b_, bool) and t_ in
+                          ('%s != %s' % (n2, n1), '%s != %s' % (n1, n2))]
+                if known and known[-1] != same:
+                    continue
+
+                def fix(x, same=same):
+                    if isinstance(x, ast.Compare) and len(x.ops) == 1 and \
+                       {norm(x.left), norm(x.comparators[0])} == {n1, n2}:
+                        if isinstance(x.ops[0], ast.Eq):
+                            return ast.Constant(value=same)
+                        if isinstance(x.ops[0], ast.NotEq):
+                            return ast.Constant(value=not same)
+                    return None
+                v = simplify(copy_replace(e, fix))
+                signs.setdefault((which, same), set()).add(norm(v))
+        if not shape_ok:
+            both[-1] = (False, ['%s(%s)' % (norm(c.func), ', '.join(norm(a) for a in c.args)) for c in adds])
+    ok = all(b_[0] for b_ in both)
     ck.ob('R-SIB.add-conn', f.qual + '|both-directions', ok, f.loc(),
-          'connection added to %s' % recv)
-    # sign: -1 exactly when the two joined ends have the same index (end1-end1 / end2-end2)
-    sg = [s for s in walk_no_nested(f.node) if isinstance(s, ast.Assign) and isinstance(s.value, ast.IfExp)]
-    ok = False
-    why = 'sign definition not found'
-    if len(sg) == 1:
-        v = sg[0].value
-        t = v.test
-        if isinstance(t, ast.Compare) and len(t.ops) == 1:
-            eq = isinstance(t.ops[0], ast.Eq)
-            ne = isinstance(t.ops[0], ast.NotEq)
-            a_, b_ = norm(v.body), norm(v.orelse)
-            # -1 exactly when the two joined ends have the same index
-            ok = (eq and (a_, b_) == ('-1', '1')) or (ne and (a_, b_) == ('1', '-1'))
-        why = 'sign = %s' % norm(v)
-    ck.ob('R-SIB.add-conn', f.qual + '|sign', ok, f.loc(), why)
-    g = m.func('mininec.Geobj.compute_connections')
-    gfl = ctx.flow(g)
-    sgn = [s for s in walk_no_nested(g.node) if isinstance(s, ast.Assign) and
-           isinstance(s.targets[0], ast.Name) and isinstance(s.value, ast.List) and len(s.value.elts) == 2
-           and any('np.sign' in norm(e) for e in s.value.elts)]
-    txt = sorted(norm(gfl.inline(s.value, gfl.node_id_of(s))) for s in sgn)
-    ok = txt == ['[1, np.sign(self.idx_2)]', '[np.sign(self.idx_1), 1]']
+          'connection added to %s' % sorted({tuple(b_[1]) for b_ in both}))
+    want = {(w_, sm): {'-1' if sm else '1'} for w_ in ('entry sign at the other object', 'index sign at the other object',
+                                                        'index sign at this object') for sm in (True, False)}
+    ok = signs == want
+    ck.ob('R-SIB.add-conn', f.qual + '|sign', ok, f.loc(),
+          'sign is -1 when both ends have the same number and 1 otherwise' if ok else
+          'signs (which, same end number) -> value: %s' % {('%s, %s' % k_): sorted(v_) for k_, v_ in sorted(signs.items())})
+    # junction pulses: sign vector [sign(idx_1), 1] at end 1 and [1, sign(idx_2)] at end 2
+    from ._creation import creation_model, creations_of
+    g, cpaths = creation_model(ctx)
+    txt = {}
+    for p_ in cpaths:
+        for c in creations_of(p_):
+            if 'sgn' in c.kws:
+                txt.setdefault(c.end, set()).add(norm(c.kws['sgn']))
+    ok = txt == {1: {'[np.sign(self.idx_1), 1]'}, 2: {'[1, np.sign(self.idx_2)]'}}
     ck.ob('R-SIB.add-conn', g.qual + '|pulse-signs', ok, g.loc(),
-          'junction pulse sign vectors: %s' % txt)
+          'junction pulse sign vectors: %s' % {k_: sorted(v_) for k_, v_ in sorted(txt.items(), key=str)})
     from ._sym import check_ground_symmetry
     ck.rule('R-SYM.ground-halves', 'statements selecting one half of the ground flags select the other too')
     nsel, nst = check_ground_symmetry(ctx, ck)
